@@ -115,8 +115,9 @@ type Job struct {
 	Key       string   `json:"key"`
 	MaxCases  int      `json:"max_cases"` // 0: engine default
 	ShrinkN   int      `json:"shrink_budget"`
-	StartCase int      `json:"start_case"` // range mode: skip case numbers below this (restart after a lost case)
-	From      int      `json:"from"`       // determinism mode: cases [from,to)
+	StartCase int      `json:"start_case"`
+	Recycle   int      `json:"recycle"` // > 0: a process runs at most this many cases (memory that code under test or its dependencies never give back stays bounded) // range mode: skip case numbers below this (restart after a lost case)
+	From      int      `json:"from"`    // determinism mode: cases [from,to)
 	To        int      `json:"to"`
 }
 
@@ -150,6 +151,9 @@ type Out struct {
 	Shrunk      *Found         `json:"shrunk,omitempty"`
 	ShrinkRuns  int            `json:"shrink_runs,omitempty"`
 	Error       string         `json:"error,omitempty"`
+	// ResumeAt > 0: this process handled its share of cases (Job.Recycle) and
+	// stopped; the driver continues with a fresh process from this case.
+	ResumeAt int `json:"resume_at,omitempty"`
 }
 
 func hash64(s string) uint64 {
@@ -250,6 +254,7 @@ func runRange(tb *testing.T, e *Engine, job *Job, out *Out) {
 	found := map[string]*Found{}
 	var sampleCases []int
 	total := nEnum + nSamp
+	ran := 0
 	for c := job.Worker; c < total; c += job.Workers {
 		if c < job.StartCase {
 			continue
@@ -257,6 +262,11 @@ func runRange(tb *testing.T, e *Engine, job *Job, out *Out) {
 		if c >= nEnum && job.Deadline > 0 && time.Now().UnixMilli() > job.Deadline {
 			break
 		}
+		if job.Recycle > 0 && ran >= job.Recycle {
+			out.ResumeAt = c
+			break
+		}
+		ran++
 		crumb(cf, c)
 		tp := caseTape(e, job, c, nEnum)
 		res, _, err := runOne(e, job, tb, tp, false)
